@@ -103,4 +103,134 @@ theorem c25_recv_payload_tamper (r : RecvPacket) (x : Bytes) (h : x ≠ r.payloa
 example : recvPreimage { payload := [1] } ≠ recvPreimage { payload := [2] } :=
   c25_recv_payload_tamper { payload := [2] } [1] (by decide)
 
+/-! ## the base64 codec the driver runs satisfies its contract -/
+
+theorem b64Val_char : ∀ n : Fin 64, b64Val (b64Char n.val) = some n.val ∧ b64Char n.val ≠ 61 := by decide
+
+theorem b64Val_char' (n : Nat) (h : n < 64) : b64Val (b64Char n) = some n := (b64Val_char ⟨n, h⟩).1
+
+theorem b64Val_pad : b64Val 61 = none := by decide
+
+/-- one sextet consumed in the collecting phase with fewer than three sextets pending -/
+theorem step_collect (out : Bytes) (acc : List Nat) (n : Nat) (h : n < 64) (hacc : acc.length < 3) :
+    b64Step { phase := .normal, acc := acc, out := out, bad := false } (b64Char n)
+      = { phase := .normal, acc := acc ++ [n], out := out, bad := false } := by
+  unfold b64Step
+  simp only [Bool.false_eq_true, if_false, b64Val_char' n h]
+  match acc, hacc with
+  | [], _ => rfl
+  | [_], _ => rfl
+  | [_, _], _ => rfl
+
+theorem step_fourth (out : Bytes) (x y z n : Nat) (h : n < 64) :
+    b64Step { phase := .normal, acc := [x, y, z], out := out, bad := false } (b64Char n)
+      = { phase := .normal, acc := [],
+          out := UInt8.ofNat ((x * 262144 + y * 4096 + z * 64 + n) % 256) :: UInt8.ofNat ((x * 262144 + y * 4096 + z * 64 + n) / 256 % 256)
+                   :: UInt8.ofNat ((x * 262144 + y * 4096 + z * 64 + n) / 65536) :: out, bad := false } := by
+  unfold b64Step
+  simp only [Bool.false_eq_true, if_false, b64Val_char' n h]
+
+theorem u8_of (a : UInt8) (n : Nat) (h : n = a.toNat) : UInt8.ofNat n = a := by subst h; simp
+
+/-- a full 3-byte group -/
+theorem group3 (a b c : UInt8) (out : Bytes) :
+    let v := a.toNat * 65536 + b.toNat * 256 + c.toNat
+    [b64Char (v / 262144), b64Char (v / 4096 % 64), b64Char (v / 64 % 64), b64Char (v % 64)].foldl b64Step
+        { phase := .normal, acc := [], out := out, bad := false }
+      = { phase := .normal, acc := [], out := c :: b :: a :: out, bad := false } := by
+  intro v
+  have ha := a.toNat_lt; have hb := b.toNat_lt; have hc := c.toNat_lt
+  simp only [List.foldl]
+  rw [step_collect out [] _ (by omega) (by simp), List.nil_append,
+      step_collect out [_] _ (by omega) (by simp), List.singleton_append,
+      step_collect out [_, _] _ (by omega) (by simp)]
+  simp only [List.cons_append, List.nil_append]
+  rw [step_fourth out _ _ _ _ (by omega)]
+  congr 2
+  · exact u8_of c _ (by omega)
+  · congr 1
+    · exact u8_of b _ (by omega)
+    · congr 1
+      exact u8_of a _ (by omega)
+
+theorem step_pad3 (out : Bytes) (x y z : Nat) :
+    b64Step { phase := .normal, acc := [x, y, z], out := out, bad := false } 61
+      = { phase := .tail, acc := [], out := UInt8.ofNat ((x * 4096 + y * 64 + z) / 4 % 256) :: UInt8.ofNat ((x * 4096 + y * 64 + z) / 1024) :: out, bad := false } := by
+  unfold b64Step
+  simp [b64Val_pad]
+
+theorem step_pad2 (out : Bytes) (x y : Nat) :
+    b64Step { phase := .normal, acc := [x, y], out := out, bad := false } 61
+      = { phase := .needPad, acc := [], out := UInt8.ofNat ((x * 4 + y / 16) % 256) :: out, bad := false } := by
+  unfold b64Step
+  simp [b64Val_pad]
+
+theorem step_needPad (out : Bytes) :
+    b64Step { phase := .needPad, acc := [], out := out, bad := false } 61 = { phase := .tail, acc := [], out := out, bad := false } := by
+  unfold b64Step
+  simp
+
+/-- decoding an encoding leaves the decoder in an accepting state with exactly the input as output -/
+theorem fold_enc (x : Bytes) : ∀ out : Bytes, ∃ ph, (ph = B64Phase.normal ∨ ph = B64Phase.tail) ∧
+    (b64Enc x).foldl b64Step { phase := .normal, acc := [], out := out, bad := false }
+      = { phase := ph, acc := [], out := x.reverse ++ out, bad := false } := by
+  induction x using b64Enc.induct with
+  | case1 a b c rest ih =>
+    intro out
+    obtain ⟨ph, hph, h⟩ := ih (c :: b :: a :: out)
+    refine ⟨ph, hph, ?_⟩
+    rw [b64Enc]
+    rw [show ∀ (p q r s : UInt8) (t : Bytes), p :: q :: r :: s :: t = [p, q, r, s] ++ t from fun _ _ _ _ _ => rfl, List.foldl_append,
+      group3 a b c out, h]
+    simp
+  | case2 a b =>
+    intro out
+    refine ⟨.tail, Or.inr rfl, ?_⟩
+    have ha := a.toNat_lt; have hb := b.toNat_lt
+    rw [b64Enc]
+    simp only [List.foldl]
+    rw [step_collect out [] _ (by omega) (by simp), List.nil_append,
+        step_collect out [_] _ (by omega) (by simp), List.singleton_append,
+        step_collect out [_, _] _ (by omega) (by simp)]
+    simp only [List.cons_append, List.nil_append]
+    rw [step_pad3]
+    simp only [List.reverse_cons, List.reverse_nil, List.nil_append, List.cons_append]
+    congr 2
+    · exact u8_of b _ (by omega)
+    · congr 1
+      exact u8_of a _ (by omega)
+  | case3 a =>
+    intro out
+    refine ⟨.tail, Or.inr rfl, ?_⟩
+    have ha := a.toNat_lt
+    rw [b64Enc]
+    simp only [List.foldl]
+    rw [step_collect out [] _ (by omega) (by simp), List.nil_append,
+        step_collect out [_] _ (by omega) (by simp), List.singleton_append, step_pad2, step_needPad]
+    simp only [List.reverse_cons, List.reverse_nil, List.nil_append, List.cons_append]
+    congr 2
+    exact u8_of a _ (by omega)
+  | case4 =>
+    intro out
+    exact ⟨.normal, Or.inl rfl, by simp [b64Enc]⟩
+
+/-- **the base64 contract holds of the codec the driver runs**: `b64Dec (b64Enc x) = some x` for every byte string -/
+theorem c25_b64_concrete (x : Bytes) : b64Dec (b64Enc x) = some x := by
+  obtain ⟨ph, hph, h⟩ := fold_enc x []
+  unfold b64Dec
+  show (let s := (b64Enc x).foldl b64Step {}; _) = _
+  have h0 : ({} : B64St) = { phase := .normal, acc := [], out := [], bad := false } := rfl
+  simp only [h]
+  rcases hph with hph | hph <;> subst hph <;> simp
+
+example : b64Dec (b64Enc [1, 2, 3, 4]) = some [1, 2, 3, 4] := c25_b64_concrete _
+
+/-- hence `B64OK` is no longer an assumption for any instance of the primitives that uses the Lean codec — in particular the
+    driver's `prims` (b64enc := b64Enc, b64dec := b64Dec): what stays trusted is only that Go's encoding/base64 agrees with it,
+    which the differential run compares on every op -/
+theorem c25_driver_b64_ok (P : Prims) (he : P.b64enc = b64Enc) (hd : P.b64dec = b64Dec) : B64OK P := by
+  intro x; rw [he, hd]; exact c25_b64_concrete x
+
+example : B64OK { toyP with b64enc := b64Enc, b64dec := b64Dec } := c25_driver_b64_ok _ rfl rfl
+
 end WK.C25
